@@ -82,6 +82,7 @@ func (z *Zipper) ComputeDiff() (*ZipperArtifacts, error) {
 
 	z.propagate()
 	z.matchTerminators()
+	verifBeforeEnforce(z)
 	z.enforceControlFlow()
 
 	return z.isolateDivergence(), nil
